@@ -131,9 +131,14 @@ def sdocAgree (a b : SDoc) : Bool :=
    | none, none => true
    | _, _ => false)
 
+def roleOf (s : String) : Role :=
+  match s with
+  | "static" => .static | "classm" => .classm | "fget" => .fget | "fset" => .fset | "fdel" => .fdel | _ => .method
+
 structure Unit' where
   req : Bool
   kind : DecoKind
+  role : Role
   f : FnD
   raw : RawDocstring
   intended : Intended
@@ -148,6 +153,7 @@ def unitOf (j : Json) : Unit' :=
       | "require" => .requireShortcut
       | "require_kw" => .requireKeyword
       | _ => .pedantic),
+    role := roleOf (jS (jF j "role")),
     f := f, raw := rawDocOf (jF j "doc"), intended := intendedOf (jF j "intended"),
     den := sdocOfJson (f.rawDoc == .text) (jF j "den"), ns := nsOf (jF j "ns"),
     eqs := (jL (jF j "eqs")).map (fun e => (valOf (jAt e 0), valOf (jAt e 1))) }
@@ -159,42 +165,55 @@ def handle (c : Json) : Json :=
   -- `"classdeco": "plain"`: the class is decorated with `pedantic_class` (methods are `@pedantic` functions), else with
   -- `pedantic_class_require_docstring`; a decorated base class of the class is not part of the case (the model does not look at it)
   let isPlain := isClass && jS (jF c "classdeco") == "plain"
+  let isSeq := jS (jF c "kind") == "seq"
+  let members : List Member := units.map (fun u => (u.role, u.f, annotate u.ns u.f u.raw))
   let model : Deco :=
-    if isPlain then decorateClassPlain env (units.map (fun u => (u.f, annotate u.f u.raw)))
-    else if isClass then decorateClass env (units.map (fun u => (u.f, annotate u.f u.raw)))
+    if isSeq then decorateSeq env (units.map (fun u => (u.kind, u.f, annotate u.ns u.f u.raw)))
+    else if isClass then decorateMembers env isPlain members
     else match units with
-      | u :: _ => decorateAs env u.kind u.f (annotate u.f u.raw)
+      | u :: _ => decorateAs env u.kind u.f (annotate u.ns u.f u.raw)
       | [] => .wrapper
+  -- a class that came through: were all the functions it holds replaced by wrappers (`ok`), none of them, or only some (`partial`:
+  -- a role that `for_all_methods` does not hand to the decorator — its docstring was never looked at)
+  let modelJ : Json :=
+    match model with
+    | .wrapper =>
+      if isClass && !(members.all (fun m => roleDecorated m.1)) then
+        (if members.any (fun m => roleDecorated m.1) then jStr "partial" else jStr "original")
+      else decoJ model
+    | _ => decoJ model
   -- the property's verdict from the meanings the harness computed with the real interpreter (no model function involved
   -- except typing-object equality)
   let specOut : Out :=
-    if isPlain then expectedClassPlain (units.map (fun u => (resolveSig u.ns u.f, u.den)))
+    if isSeq then expectedSeq (units.map (fun u => (u.req, resolveSig u.ns u.f, u.den)))
+    else if isPlain then expectedClassPlain (units.map (fun u => (resolveSig u.ns u.f, u.den)))
     else if isClass then expectedClass (units.map (fun u => (resolveSig u.ns u.f, u.den)))
     else match units with
       | u :: _ => expected u.req (resolveSig u.ns u.f) u.den
       | [] => .ok
   -- the same verdict from the docstring as written, with the meanings computed by the Lean evaluator in the module's namespace
   let specLean : Out :=
-    if isPlain then expectedClassPlain (units.map (fun u => (resolveSig u.ns u.f, specDoc u.ns u.f u.intended)))
+    if isSeq then expectedSeq (units.map (fun u => (u.req, resolveSig u.ns u.f, specDoc u.ns u.f u.intended)))
+    else if isPlain then expectedClassPlain (units.map (fun u => (resolveSig u.ns u.f, specDoc u.ns u.f u.intended)))
     else if isClass then expectedClass (units.map (fun u => (resolveSig u.ns u.f, specDoc u.ns u.f u.intended)))
     else match units with
       | u :: _ => expected u.req (resolveSig u.ns u.f) (specDoc u.ns u.f u.intended)
       | [] => .ok
-  let applies := if isPlain then units.any (fun u => decide (Applies false u.den)) else if isClass then true else match units with
+  let applies := if isSeq then units.any (fun u => decide (Applies u.req u.den)) else if isPlain then units.any (fun u => decide (Applies false u.den)) else if isClass then true else match units with
     | u :: _ => decide (Applies u.req u.den)
     | [] => false
   mkObj [
-    ("model", decoJ model),
+    ("model", modelJ),
     ("spec", mkObj [("applies", jBool applies),
                     ("consistent", jBool (units.all (fun u => decide (Consistent (resolveSig u.ns u.f) u.den)))),
                     ("expected", outJ specOut)]),
     ("spec_lean", outJ specLean),
     ("den_agree", jBool (units.all (fun u => sdocAgree u.den (specDoc u.ns u.f u.intended)))),
-    ("model_view_consistent", jBool (units.all (fun u => decide (Consistent u.f (sdocOf u.f (annotate u.f u.raw)))))),
+    ("model_view_consistent", jBool (units.all (fun u => decide (Consistent u.f (sdocOf u.f (annotate u.ns u.f u.raw)))))),
     ("parser_faithful", jBool (units.all (fun u => sameRaw u.raw (rawOf u.intended)))),
     ("eqs", jArr ((units.map (fun u => u.eqs.map (fun (a, b) => jArr [jBool (annEq a b), jBool (annEq b a)]))).flatten)),
     ("dts", jArr (units.map (fun u =>
-      let d := annotate u.f u.raw
+      let d := annotate u.ns u.f u.raw
       mkObj [("params", jArr (d.params.map (fun p => dtJ p.ty))),
              ("returns", match d.returns with | some (n, t) => jArr [jNat n, dtJ t] | none => Json.null)])))
   ]
